@@ -17,4 +17,6 @@ let table : (string * (z list list list -> z list list)) list = [
   ("tbf_model", e_tbf_model);
   ("rdelay_model", e_rdelay_model);
   ("delay_oracle", e_delay_oracle);
+  ("rdl_model", e_rdl_model);
+  ("c08_replay", e_c08_replay);
 ]
